@@ -4,6 +4,7 @@
 -/
 import Mrm.Proofs.Atomic
 import Mrm.Spec.Merge
+import Mrm.Spec.C05Any
 
 namespace Mrm
 
